@@ -193,7 +193,27 @@ func bindParam(v ssa.Value, ctx *sx.Ctx) (ssa.Value, *sx.Ctx) {
 	return v, ctx
 }
 
-// bufferOf resolves a byte-slice operand to (slice value in the function that owns the buffer, extra offset accumulated in callees).
+// substParams replaces symbols that name parameters of fn by the caller's argument values.
+func (w *walker) substParams(p sx.Poly, fn *ssa.Function, ctx *sx.Ctx) (sx.Poly, bool) {
+	if ctx == nil || fn == nil {
+		return p, true
+	}
+	caller := ctx.Call.Parent()
+	for _, sym := range p.Symbols() {
+		for i, q := range fn.Params {
+			if q.Name() == sym && i < len(ctx.Call.Call.Args) {
+				p = p.Subst(sym, w.env(caller).Int(ctx.Call.Call.Args[i]))
+			}
+		}
+	}
+	return p, true
+}
+
+// bufferOf resolves a byte-slice operand to (slice value in the function that
+// owns the buffer, extra offset accumulated in callees). It follows a helper's
+// slice parameter to the caller's argument and a closure's captured buffer
+// variable to the value the enclosing function stored in it; offsets that are
+// helper parameters are replaced by the caller's arguments.
 func (w *walker) bufferOf(v ssa.Value, ctx *sx.Ctx) (ssa.Value, sx.Poly, bool) {
 	var extra sx.Poly
 	for i := 0; i < 8; i++ {
@@ -203,20 +223,53 @@ func (w *walker) bufferOf(v ssa.Value, ctx *sx.Ctx) (ssa.Value, sx.Poly, bool) {
 		}
 		e := w.env(fn)
 		root, off := e.SliceRoot(v)
-		p, isParam := root.(*ssa.Parameter)
-		if !isParam || ctx == nil {
+		if ctx == nil {
 			return v, extra, true
 		}
-		// the callee re-sliced its parameter by a constant amount
-		if _, isC := off.IsConst(); !isC {
-			return v, extra, false
+		switch x := root.(type) {
+		case *ssa.Parameter:
+			off, _ = w.substParams(off, fn, ctx)
+			if _, isC := off.IsConst(); !isC {
+				return v, extra, false
+			}
+			nv, nctx := bindParam(x, ctx)
+			if nv == ssa.Value(x) {
+				return v, extra, true
+			}
+			extra = extra.Add(off)
+			v, ctx = nv, nctx
+			continue
+		case *ssa.UnOp:
+			// *capturedVar inside a closure
+			fv, isFV := x.X.(*ssa.FreeVar)
+			mc, isMC := ctx.Call.Call.Value.(*ssa.MakeClosure)
+			if x.Op != token.MUL || !isFV || !isMC {
+				return v, extra, true
+			}
+			off, _ = w.substParams(off, fn, ctx)
+			if _, isC := off.IsConst(); !isC {
+				return v, extra, false
+			}
+			var bound ssa.Value
+			for k, f := range fn.FreeVars {
+				if f == fv && k < len(mc.Bindings) {
+					bound = mc.Bindings[k]
+				}
+			}
+			al, isAl := bound.(*ssa.Alloc)
+			if !isAl {
+				return v, extra, true
+			}
+			ce := w.env(al.Parent())
+			sts := ce.Stores(al)
+			if len(sts) != 1 || len(sts[0].Ad.Path) != 0 {
+				return v, extra, false
+			}
+			extra = extra.Add(off)
+			v, ctx = sts[0].St.Val, ctx.Parent
+			continue
 		}
-		extra = extra.Add(off)
-		nv, nctx := bindParam(p, ctx)
-		if nv == ssa.Value(p) {
-			return v, extra, true
-		}
-		v, ctx = nv, nctx
+		return v, extra, true
 	}
 	return v, extra, true
 }
